@@ -180,7 +180,7 @@ pub fn parse_docs(attrs: &[Attribute]) -> Result<String> {
         })
         .collect::<Result<Vec<_>>>()?;
 
-    Ok(match doc_attrs.len() {
+    let docs = match doc_attrs.len() {
         // No docs
         0 => String::new(),
 
@@ -203,7 +203,21 @@ pub fn parse_docs(attrs: &[Attribute]) -> Result<String> {
             buffer.push_str("\n */\n");
             buffer
         }
-    })
+    };
+
+    // An empty line inside the comment would be taken for the separator between two declarations
+    // when several types are exported to the same file, so it is written as ` *` instead.
+    if !docs.contains("\n\n") {
+        return Ok(docs);
+    }
+    let mut lines: Vec<&str> = docs.split('\n').collect();
+    let last = lines.len() - 1;
+    for line in &mut lines[1..last] {
+        if line.is_empty() {
+            *line = " *";
+        }
+    }
+    Ok(lines.join("\n"))
 }
 
 #[cfg(feature = "serde-compat")]
